@@ -464,6 +464,25 @@ def check(rec, kind, idx, rng, tier):
         rec.sample(dict(sequence=seq[:12], note='spec = function|variant|dtype|dask'))
     for pos, s, ch in state_changes:
         rec.cls('witness.module_state_changed_after_call'); rec.add('witness.changed_state', '%s after %s' % (ch, s.split('|')[0]))
+    # a module table / default changed: that alone is only a witness. Decide by results: every numpy variant of the functions
+    # whose call preceded the change is executed now (in this process, after the change) and alone in a fresh interpreter.
+    probed = set()
+    for pos, s, ch in state_changes[:3]:
+        fam = s.split('|')[0]
+        for spec in [x for x in specs_all if x.startswith(fam + '|') and x.endswith('|float64|0')]:
+            if spec in probed:
+                continue
+            probed.add(spec)
+            rec.evaluation()
+            try:
+                here = run_specs([spec], seed, 1)[0]; fresh = _sub([spec], seed, 1, 1)[0]
+            except Exception as e:
+                rec.harness_errors.append({'kind': kind, 'idx': idx, 'tb': 'state probe failed: %r' % e}); continue
+            if here != fresh and not (here.startswith('EXC') and fresh.startswith('EXC')):
+                rec.violation('history.module_state_changed_and_result_differs', 'after %s changed module state %s, call %s differs from the same call in a fresh interpreter'
+                              % (s, ch, spec), dict(pay, changed=ch, after=s, spec=spec, here=here, fresh=fresh))
+                return
+            rec.ok('state_change_probe_identical')
     # (1) repeats inside the sequence
     first = {}
     for pos, (s, d) in enumerate(zip(seq, digs)):
